@@ -484,8 +484,21 @@ def _r5(ctx, m):
         }
         for fld, (pred, desc) in want.items():
             a = args.get(fld)
-            ctx.check(a is not None and bool(pred(simp(a))), "R5", f"Jacobian.{fld}", (FILE, jcall[1]),
-                      f"field `{fld}` receives {desc}", expected=desc, found=show(simp(a))[:100] if a is not None else "missing")
+            sa_ = simp(a) if a is not None else None
+            good = a is not None and bool(pred(sa_))
+            # positive evidence of a mix-up: the field is missing, receives what belongs to ANOTHER field, or a count taken before the
+            # scan; a value whose provenance is not understood is "cannot decide"
+            other = [g for g, (p2, _) in want.items() if g != fld and a is not None and bool(p2(sa_))]
+            early = fld == "nnz" and a is not None and ((sa_[0] == "call" and sa_[1] == ("global", "len")) or sa_ == ("const", 0))
+            if fld in ("nnz", "rows", "cols", "vals") and not good and a is not None and (counter is None and measured is None or not all(k in roles for k in ("rows", "cols", "vals"))):
+                # the CSR lists are not built by the scan this rule knows: which value plays which role is C03.R1's "cannot analyse"
+                ctx.unrec("R5", f"Jacobian.{fld}", (FILE, jcall[1]), f"field `{fld}` receives `{show(sa_)[:100]}`; the CSR construction is not recognised, so its role is not decided")
+                continue
+            if good or a is None or other or early or sa_[0] in ("acc", "const", "list"):
+                ctx.check(good, "R5", f"Jacobian.{fld}", (FILE, jcall[1]),
+                          f"field `{fld}` receives {desc}", expected=desc, found=show(sa_)[:100] if a is not None else "missing")
+            else:
+                ctx.unrec("R5", f"Jacobian.{fld}", (FILE, jcall[1]), f"field `{fld}` receives `{show(sa_)[:100]}`: not traced to {desc}")
     if ocall is None:
         ctx.missing("R5", "ODEContent(...)", (FILE, m.func.lineno), "return ODEContent(...) not found")
     else:
